@@ -29,7 +29,8 @@ PairClause(c) ==
                                                        x == (c.e_profile_err[k] * dA) \div 64               \* perr*dA in 1/64
                                                        q == c.e_err[k+1] * c.e_err[k+1] - c.e_err[k] * c.e_err[k]   \* in 1/4096
                                                        tol == Abs(q) \div 16 + 4096 IN
-            FinBin(c, k) /\ dA >= 4 /\ ~(x * x - q <= tol /\ q - x * x <= tol) THEN "rp_error_in_quadrature"
+            \* (bins of at least one pixel: the 1/64 quantisation of a smaller area alone exceeds the tolerance once the errors are large)
+            FinBin(c, k) /\ dA >= 64 /\ ~(x * x - q <= tol /\ q - x * x <= tol) THEN "rp_error_in_quadrature"
   ELSE IF \E k \in 1..(N(c) - 1) : FinBin(c, k) /\ ~Near(c.rp_area[k], c.ap_area[k+1] - c.ap_area[k]) THEN "rp_area_is_area_difference"
   ELSE IF c.nonneg /\ \E k \in 1..(N(c) - 1) : Fin(c, k) /\ Fin(c, k + 1) /\ c.cog_flux[k+1] < c.cog_flux[k] - Tol THEN "nonnegative_data_monotone_cog"
   ELSE IF c.constant >= 0 /\ \E k \in 1..(N(c) - 1) : FinBin(c, k) /\ c.rp_area[k] >= S \div 16 /\ ~(c.k_profile[k] - c.constant * 1024 <= 4 /\ c.constant * 1024 - c.k_profile[k] <= 4) THEN "constant_image_constant_profile"
